@@ -200,6 +200,21 @@ pub fn check_raw(ctx: &mut Ctx, ty: u16, value: &[u8], all_short: bool) {
     let w = || json!({"kind": "raw-write", "raw_type": ty, "value": hex(value)});
     let raw = RawAttribute::new(AttributeType::new(ty), value);
     check_writer(ctx, "RawAttribute", &raw, value.len(), &w, all_short);
+    // the other ways a raw attribute comes into being: from a boxed value, from the data wrappers
+    {
+        let boxed = RawAttribute::new_owned(AttributeType::new(ty), value.to_vec().into_boxed_slice());
+        let mut via_data = RawAttribute::new(AttributeType::new(ty), value);
+        via_data.value = stun_types::data::Data::from(value.to_vec().into_boxed_slice());
+        let mut via_slice = RawAttribute::new(AttributeType::new(ty), value);
+        via_slice.value = stun_types::data::Data::Owned(stun_types::data::DataSlice::from(value).to_owned()).into_owned();
+        for (how, other) in [("new_owned", &boxed), ("Data::from(Box)", &via_data), ("DataSlice::to_owned", &via_slice)] {
+            let mut dest = vec![FILL; raw.padded_len() + 2];
+            let n = other.write_into(&mut dest).unwrap_or(0);
+            if other.to_bytes() != raw.to_bytes() || other.length() != raw.length() || dest[..n.min(dest.len())] != raw.to_bytes()[..] || dest[n.min(dest.len())..].iter().any(|b| *b != FILL) {
+                ctx.violation("C12", "owned-equals-borrowed", "RawAttribute", how, w, hex(&raw.to_bytes()[..raw.to_bytes().len().min(48)]), hex(&other.to_bytes()[..other.to_bytes().len().min(48)]));
+            }
+        }
+    }
     // owned copy behaves identically
     let owned = raw.clone().into_owned();
     // (RawAttribute's PartialEq distinguishes borrowed from owned storage; only the bytes matter)
